@@ -207,6 +207,46 @@ def pend_case(S, rng, elem=None, shape=None):
             ["wo", "tuple", [["wo", "tuple", [["wo", "list", pre + [["wp", 1]]]]]]])
 
 
+def open_ref_cases(S):
+    """a back-reference to an ENCLOSING list / dict that is still open (the receiver holds the real, partially filled
+    container), placed before and after conforming members, one and two levels up, in list and dict-value slots whose
+    declared constraint is a container of every kind.  Element constraints are free of Any/Optional, so the finished
+    (cyclic) value can never satisfy the declaration.  -> [(constraint spec, wire spec)]"""
+    out = []
+    i1, i2 = ["wi", "INT", 1, 1], ["wi", "INT", 2, 2]
+    key = lambda ch: ["ws", False, 1, [ch]]
+    for elem, good, gv in [(["py", "int"], [i1, i2], [["i", 1], ["i", 2]]), (["py", "bytes"], [key(65)], [["b", [65]]]),
+                           (["py", "str"], [S.slice_vs(["t", [97]])], [["t", [97]]]),
+                           (["py", "bool"], [S.slice_vs(["B", True])], [["B", True]])]:
+        inner = ["list", elem, None, 0]
+        # list of lists: (list (reference <this list>) (list ..)), and the reference after a good member
+        out.append((["list", inner, None, 0], ["wo", "list", [["wq", 0, ["l", []]], ["wo", "list", good]]]))
+        out.append((["list", inner, None, 0], ["wo", "list", [["wo", "list", good], ["wq", 0, ["l", [["l", gv]]]]]]))
+        # dict of dicts: (dict 's' (reference <this dict>) 'a' (dict ..))
+        dinner = ["dict", ["py", "bytes"], elem, None]
+        out.append((["dict", ["py", "bytes"], dinner, None],
+                    ["wo", "dict", [key(115), ["wq", 0, ["d", []]], key(97), ["wo", "dict", [key(120), good[0]]]]]))
+        # a list inside a dict inside the list that is referenced (two levels up)
+        out.append((["list", ["dict", ["py", "bytes"], inner, None], None, 0],
+                    ["wo", "list", [["wo", "dict", [key(107), ["wq", 1, ["l", []]]]]]]))
+        # inside a tuple argument: the reference skips the tuple level
+        out.append((["tuple", [["list", inner, None, 0], ["py", "int"]]],
+                    ["wo", "tuple", [["wo", "list", [["wq", 0, ["l", []]]]], i1]]))
+        # bounded containers: maxLength / minLength seen on the partial container only
+        out.append((["list", ["list", elem, 2, 0], 3, 0], ["wo", "list", [["wq", 0, ["l", []]], ["wo", "list", good], ["wo", "list", good]]]))
+    return out
+
+
+def open_ref_sweep(ctx, S, E, runner, is_call):
+    recs = []
+    for cs, ws in open_ref_cases(S):
+        if is_call:
+            recs.append(guarded(ctx, runner, S, E, "open-ref", "open-ref", [("a", cs, False)], [ws], []))
+        else:
+            recs.append(guarded(ctx, runner, S, E, "open-ref", "open-ref", cs, ws))
+    return [r for r in recs if r]
+
+
 def has_pend(ws):
     return ws[0] == "wp" or (ws[0] == "wo" and any(has_pend(x) for x in ws[2]))
 
@@ -265,7 +305,11 @@ def guarded(ctx, fn, *a):
         return None
 
 
-def run_call(ctx, S, E, tag, family, argspec, pos, kws, vocab=0, direct=None):
+def run_call(ctx, S, E, tag, family, argspec, pos, kws, vocab=0, direct=None, per_instance=None):
+    if per_instance is None:
+        # the interface is declared on the target INSTANCE; instances of one group share one python class
+        per_instance = ("g%d" % ctx.rng.randrange(6)) if ctx.rng.random() < 0.3 else False
+    ctx.hist("interface_declared_on", "instance (directlyProvides)" if per_instance else "class (@implementer)")
     if direct is None:
         direct = ctx.rng.random() < 0.4                # prototype function or RemoteMethodSchema(**kwargs)
     ctx.hist("schema_declared_by", "RemoteMethodSchema(**kwargs)" if direct else "prototype function")
@@ -273,9 +317,10 @@ def run_call(ctx, S, E, tag, family, argspec, pos, kws, vocab=0, direct=None):
     for n, cs, opt in argspec:
         c = S.build(cs)
         cons.append(S.schema.Optional(c, None) if opt else c)
-    res, w = S.call_trial([n for n, _, _ in argspec], cons, pos, [(n, x) for n, x in kws], vocab=vocab, direct=direct)
+    res, w = S.call_trial([n for n, _, _ in argspec], cons, pos, [(n, x) for n, x in kws], vocab=vocab, direct=direct,
+                          per_instance=per_instance)
     out = S.outcome_of(res)
-    case = dict(tag=tag, family=family, argspec=argspec, pos=pos, kws=kws, direct=direct)
+    case = dict(tag=tag, family=family, argspec=argspec, pos=pos, kws=kws, direct=direct, per_instance=per_instance)
     rec = dict(case=case, ms=ms_term(S, w.ms))
     calls = w.target.calls
     if len(calls) > 1:
@@ -366,8 +411,19 @@ def call_cases(ctx, S, E):
         if r and w.get("expect") and r["outcome"] != w["expect"]:
             ctx.fail("oracle/regression-" + os.path.basename(p)[:-5], "corpus witness %s: expected %s, got %s" % (p, w["expect"], r["outcome"]), replay=w)
         recs.append(r)
+    # two targets of ONE python class whose instances declare different RemoteInterfaces with a method of the same name:
+    # each call is governed by the schema of the instance it addresses, whatever was called before (in this process)
+    five = ["wi", "INT", 5, 5]
+    big = ["wi", "LONGINT", 5, 2 ** 39]
+    for grp, tag, cs, ws in [("f1", "per-instance-int", ["py", "int"], five), ("f1", "per-instance-bytes", ["bytes", None, 0], five),
+                             ("f2", "per-instance-listint", ["list", ["py", "int"], None, 0], ["wo", "list", [five]]),
+                             ("f2", "per-instance-listbytes", ["list", ["py", "bytes"], None, 0], ["wo", "list", [five]]),
+                             ("f3", "per-instance-int1024", ["py", "int"], big), ("f3", "per-instance-int32", ["int", -1], big),
+                             ("f4", "per-instance-any", ["any"], ["wo", "list", [five]]), ("f4", "per-instance-none", ["none"], ["wo", "list", [five]])]:
+        recs.append(guarded(ctx, run_call, S, E, tag, "per-instance", [("a", cs, False)], [ws], [], 0, False, grp))
     for tag, argspec, pos, kws in FIXED_CALLS:
         recs.append(guarded(ctx, run_call, S, E, tag, "fixed", argspec, pos, kws))
+    recs += open_ref_sweep(ctx, S, E, run_call, True)
     for elem in PEND_ELEMS:
         cs, ws = pend_case(S, rng, elem, "list")
         recs.append(guarded(ctx, run_call, S, E, "pend-sweep", "pend", [("a", cs, False)], [ws], []))
@@ -524,6 +580,7 @@ def answer_cases(ctx, S, E):
     for tag, cs, ws in FIXED_ANSWERS:
         recs.append(guarded(ctx, run_answer, S, E, tag, "fixed", cs, ws))
     recs += hostile_sweep(ctx, S, E)
+    recs += open_ref_sweep(ctx, S, E, run_answer, False)
     for elem in PEND_ELEMS:                          # every OPEN-accepting constraint kind (and a few that refuse OPEN)
         for shape in ("list", "dict", "list2", "tuple-list", "tuple-list-inner"):
             cs, ws = pend_case(S, rng, elem, shape)
